@@ -104,6 +104,7 @@ def worker_main(mod, tier, seed, shard, nshards, out_path, case_timeout):
            'errors': []}
     if hasattr(mod, 'worker_init'):
         mod.worker_init()
+    shard_env = json.loads(os.environ.get('VERIF_SHARD_ENV') or 'null')
     signal.signal(signal.SIGALRM, _alarm)
     deadline = float(os.environ.get('VERIF_DEADLINE', '0')) or None
     nsample = 0
@@ -127,6 +128,8 @@ def worker_main(mod, tier, seed, shard, nshards, out_path, case_timeout):
         finally:
             signal.setitimer(signal.ITIMER_REAL, 0)
         agg['evaluations'] += 1
+        if shard_env:
+            agg['obs']['cases_run_in_the_environment:' + ','.join('%s=%s' % kv for kv in sorted(shard_env.items()))] += 1
         agg['sigs'].update(res.sigs)
         agg['obs'].update(res.obs)
         for k, v in res.hist.items():
@@ -138,6 +141,8 @@ def worker_main(mod, tier, seed, shard, nshards, out_path, case_timeout):
             if len(agg['viol']) < 400:
                 v = dict(v)
                 v.setdefault('spec', spec)
+                if shard_env:
+                    v['env'] = shard_env
                 agg['viol'].append(v)
             agg['obs']['violations_raw'] += 1
             agg['obs']['violation:' + v['key']] += 1
@@ -184,7 +189,18 @@ def orchestrate(mod, tier, seed, check_script):
             cmd = [PY, check_script, pid_, '--tier', tier, '--seed', str(seed),
                    '--worker', '%d/%d' % (s, nshards), '--out', out,
                    '--case-timeout', str(case_timeout)]
-            procs.append((s, out, subprocess.Popen(cmd, env=env, cwd=VERIF,
+            senv = env
+            extra = getattr(mod, 'shard_env', lambda i, n: None)(s, nshards)
+            if extra:
+                # the environment the daemon under test finds itself in (None removes a variable)
+                senv = dict(env)
+                for k_, v_ in extra.items():
+                    if v_ is None:
+                        senv.pop(k_, None)
+                    else:
+                        senv[k_] = v_
+                senv['VERIF_SHARD_ENV'] = json.dumps(extra)
+            procs.append((s, out, subprocess.Popen(cmd, env=senv, cwd=VERIF,
                                                    stdout=subprocess.PIPE, stderr=subprocess.STDOUT)))
     merged = {'evaluations': 0, 'sigs': set(), 'obs': collections.Counter(),
               'hist': collections.defaultdict(collections.Counter), 'viol': [], 'samples': [],
@@ -247,6 +263,7 @@ def finish(mod, tier, seed, merged, broken, wall, planned):
         with open(path, 'w') as f:
             json.dump({'property': pid_, 'key': k, 'seed': seed, 'tier': tier,
                        'msg': vs[0]['msg'], 'detail': vs[0]['detail'], 'spec': vs[0]['spec'],
+                       'env': vs[0].get('env'),
                        'occurrences': merged['obs'].get('violation:' + k, len(vs))},
                       f, indent=1, default=str)
         lines.append('VIOLATION property=%s replay=%s' % (pid_, path))
@@ -310,6 +327,17 @@ def finish(mod, tier, seed, merged, broken, wall, planned):
 def replay(mod, path):
     d = json.load(open(path))
     spec = d['spec'] if 'spec' in d else d
+    if isinstance(d, dict) and d.get('env') and os.environ.get('VERIF_SHARD_ENV') is None:
+        # the witness was found with the daemon in a particular environment (read at import time by the code
+        # under test): start again in that environment
+        e = dict(os.environ)
+        for k_, v_ in d['env'].items():
+            if v_ is None:
+                e.pop(k_, None)
+            else:
+                e[k_] = v_
+        e['VERIF_SHARD_ENV'] = json.dumps(d['env'])
+        os.execve(sys.executable, [sys.executable] + sys.argv, e)
     if hasattr(mod, 'worker_init'):
         mod.worker_init()
     res = mod.run_case(spec)
